@@ -20,7 +20,7 @@ RULE = (
 ASSUMPTIONS = ["the sampler is a fixed linear map of the standard normal draws it makes inside zero_mean_mvn_samples (verified per case by zero-noise and superposition runs)",
                "Lanczos-root samplers (max_cholesky_size 0): equality asserted when the eigenvalues are distinct, up to the documented tridiagonal jitter; CIQ cells use minres_tolerance 1e-12"]
 CHUNK = 6
-CASE_TIMEOUT = 900
+CASE_TIMEOUT = 3600
 DT = torch.float64
 
 
